@@ -14,6 +14,7 @@ def gen_sleep_history(rng, with_faults: bool, versions=("2.0", "2.1", "2.2", "2.
     v = rng.choice(versions)
     ops.append(("recv", f"0;255;3;0;2;{v}", ()))
     nodes = [1, 2, 3][: rng.randint(1, 3)]
+    stored: dict = {}
     for n in nodes:
         ops.append(("put_node", n, 17, v, rng.random() < 0.65))
         for c in (0, 1):
@@ -21,8 +22,10 @@ def gen_sleep_history(rng, with_faults: bool, versions=("2.0", "2.1", "2.2", "2.
                 ops.append(("add_child", n, c, 3))
                 for t in (2, 3):
                     if rng.random() < 0.6:
-                        # a stored value: what the gateway answers a `req` of the node with
-                        ops.append(("set_value", n, c, t, f"old{n}{c}{t}"))
+                        # a stored value: what the gateway answers a `req` of the node with.  It is a
+                        # tag of its own so that the application may later send exactly this value
+                        stored[(n, c, t)] = f"tag9{n}{c}{t}"
+                        ops.append(("set_value", n, c, t, stored[(n, c, t)]))
     tag = 0
     pr = Profile(nodes=nodes, p_malformed=0.0, unknown_node=0.05)
     right = HB if v in ("2.0", "2.1") else PRE
@@ -39,8 +42,13 @@ def gen_sleep_history(rng, with_faults: bool, versions=("2.0", "2.1", "2.2", "2.
         x = rng.random()
         if x < 0.45:
             n = rng.choice(nodes + ([9] if rng.random() < 0.1 else []))
-            fields = (n, rng.choice([0, 1]), 1, rng.choice([0, 0, 1]), rng.choice([2, 3]), f"tag{tag}")
-            tag += 1
+            c, t = rng.choice([0, 1]), rng.choice([2, 3])
+            if (n, c, t) in stored and rng.random() < 0.12:
+                # the application commands the value the node reported last (the stored one)
+                fields = (n, c, 1, rng.choice([0, 0, 1]), t, stored.pop((n, c, t)))
+            else:
+                fields = (n, c, 1, rng.choice([0, 0, 1]), t, f"tag{tag}")
+                tag += 1
             faults = (True,) if with_faults and rng.random() < 0.1 else ()
             ops.append(("send", fields, rng.random() < 0.88, faults))
         elif x < 0.75:
@@ -56,6 +64,12 @@ def gen_sleep_history(rng, with_faults: bool, versions=("2.0", "2.1", "2.2", "2.
             ops.append(("set_sleeping", rng.choice(nodes), rng.random() < 0.6))
         elif x < 0.885:
             ops.append(("reconnect",))
+        elif x < 0.9:
+            ops.append(("set_reboot", rng.choice(nodes), rng.random() < 0.7))
+        elif x < 0.915:
+            # the node reports a value itself (possibly echoing a command, ack flag set)
+            ops.append(("recv", f"{rng.choice(nodes)};{rng.choice([0, 1])};1;{rng.choice([0, 1])};{rng.choice([2, 3])};rep{tag}", ()))
+            tag += 1
         elif x < 0.93:
             # the node asks for its state (typically right after waking, before its wake signal)
             ops.append(("recv", f"{rng.choice(nodes)};{rng.choice([0, 1])};2;0;{rng.choice([2, 3])};", ()))
